@@ -33,7 +33,7 @@ RULE = ("valid files of each format (python writers + hand-written variants: int
         "everything in thorough); partition strings from a grammar + overflow values; non-trivial = differs from every "
         "seed file and the first changed byte lies beyond the header")
 
-MODELLED = {"fasta", "phylip", "stockholm", "clustal", "partition", "multi-phylip"}
+MODELLED = {"fasta", "phylip", "stockholm", "clustal", "partition", "multi-phylip", "nexus"}
 for _f in ["phylip", "nexus", "clustal", "stockholm", "partition", "multi-phylip", "auto-detection"]:
     if _f not in MODELLED:
         PARTIAL.append("no Lean parser model yet for %s: its inputs are judged by the C03 predicate on the "
